@@ -240,6 +240,66 @@ void h_bx_block(void)
 #endif
   CHECK(cur == g_upstream, "exactly one read per up-value, in id order from the closure upwards, on the current upstream");
 }
+
+/* ---- format strings: C03 (a scope per directive) and wiring ----
+ * child i is a literal piece iff bit i of BX_FMT_MASK is clear, else a %( %) / %s directive; number and kinds of the pieces are
+ * fixed per job (keeps the model's operator pool index concrete), the checks are selected by the preprocessor accordingly */
+#ifdef BX_FMT_N
+#define FMT_IS_DIR(i) (((BX_FMT_MASK) >> (i)) & 1)
+#define FMT_NDIR (((BX_FMT_N) > 0 ? FMT_IS_DIR(0) : 0) + ((BX_FMT_N) > 1 ? FMT_IS_DIR(1) : 0) + ((BX_FMT_N) > 2 ? FMT_IS_DIR(2) : 0))
+#if FMT_NDIR > 0
+static void check_dir(mop *cur, unsigned i, unsigned k)     /* directives are built last to first: directive d (written order) is call ndir-1-d */
+{
+  CHECK(cur->kind == K_SOP && cur->lay == &L, "piece i of the string is a directive");
+  CHECK(cur->a[2]->kind == K_SUBCHAIN && cur->a[2]->call == (int)k && g_calls[k].tree == &g_kids[i], "the directive evaluates child i");
+  check_origin_of(cur->a[1], k, &L);
+  CHECK(g_calls[k].scope != &g_bn && g_calls[k].scope_super == &g_bn, "each directive gets a scope of its own nested in the current one: names bound inside %( %) do not leak");
+}
+#endif
+#if FMT_NDIR < BX_FMT_N
+static void check_lit(mop *cur, unsigned i)
+{ CHECK(cur->kind == K_SLIT && cur->extra == (unsigned long)g_kids[i].m_str, "piece i of the string is the literal text of child i"); }
+#endif
+void h_bx_format(void)
+{
+  for (unsigned i = 0; i < BX_N; ++i) { g_kids[i].m_tt = FMT_IS_DIR(i) ? tree_type__NOP : tree_type__STR; g_kids[i].m_str = nondet_int(); }
+  mop *r = run(tree_type__FORMAT, BX_FMT_N);
+#if FMT_NDIR > 0
+  check_up_rdv();
+#endif
+  CHECK(verif_raised == 0 && r->kind == K_FORMAT && r->a[0] == g_upstream && r->lay == &L, "a format string builds an op_format on the current upstream");
+  CHECK(r->a[1] != 0 && r->a[1]->kind == K_SORIGIN && r->a[1]->lay == &L, "with a stringer origin of its own");
+  CHECK(g_ncalls == FMT_NDIR, "every directive is built once, literal pieces build nothing");
+  mop *cur = r->a[2];
+  unsigned d = 0;
+#if BX_FMT_N > 0
+#if FMT_IS_DIR(0)
+  check_dir(cur, 0, FMT_NDIR - 1 - d); d++;
+#else
+  check_lit(cur, 0);
+#endif
+  cur = cur->a[0];
+#endif
+#if BX_FMT_N > 1
+#if FMT_IS_DIR(1)
+  check_dir(cur, 1, FMT_NDIR - 1 - d); d++;
+#else
+  check_lit(cur, 1);
+#endif
+  cur = cur->a[0];
+#endif
+#if BX_FMT_N > 2
+#if FMT_IS_DIR(2)
+  check_dir(cur, 2, FMT_NDIR - 1 - d); d++;
+#else
+  check_lit(cur, 2);
+#endif
+  cur = cur->a[0];
+#endif
+  (void)d;
+  CHECK(cur == r->a[1], "the chain of pieces, in written order, ends in the stringer origin");
+}
+#endif
 #ifdef VERIF_CONTROL
 void h_bx_control(void) { mop *r = run(tree_type__SCOPE, 1); CHECK(g_calls[0].scope == &g_bn, "CONTROL: deliberately false (the body's scope is a new one)"); }
 #endif
